@@ -219,7 +219,7 @@ def gen_cases(tier, seed):
                 "kind": "single",
                 "shape": FIT_SHAPES[i % len(FIT_SHAPES)],
                 "n": int(rng.integers(3, 21)),
-                "bounds": str(rng.choice(["none", "predefined", "finite-inactive", "finite-active", "one-sided-active"])),
+                "bounds": str(rng.choice(["none", "predefined", "finite-inactive", "finite-active", "one-sided-active", "zero-upper-active", "zero-lower-active"])),
                 "constraints": str(rng.choice(["none", "none", "dict-inactive", "list-inactive", "dict-active", "list-active"])),
                 "weights": str(rng.choice(["none", "none", "y", "x", "ones", "inv-y"])),
                 "noise": float(rng.choice([0.0, 0.01, 0.05])),
@@ -306,6 +306,22 @@ def _single(case, ctx):
         bounds = [(c_ - 10 * abs(c_) - 5, c_ + 10 * abs(c_) + 5) for c_ in coef]
         j = int(rng.integers(k))
         bounds[j] = (coef[j] + 0.2 * abs(coef[j]) + 0.05, coef[j] + 3 * abs(coef[j]) + 1.0)  # optimum excluded: the bound is active
+    elif bkind in ("zero-upper-active", "zero-lower-active"):
+        # a bound that is exactly 0 (falsy) and excludes the unconstrained optimum: data are mirrored so that the
+        # optimum of parameter j has the sign the bound forbids
+        bounds = [(None, None)] * k
+        j = 1 if k > 1 else 0
+        if shape in ("linear2", "poly3", "power3", "exp3", "asymdecrease3", "logistics4", "limited_growth3", "tanh3"):
+            if bkind == "zero-upper-active":
+                bounds[j] = (None, 0) if coef[j] > 0 else (None, 0.0)
+                if coef[j] <= 0:
+                    bounds[j] = (coef[j] - 5.0, None)
+                    bkind = "finite-inactive"
+            else:
+                if coef[j] < 0:
+                    bounds[j] = (0, None)
+                else:
+                    bounds[j] = (None, 0.0)  # positive optimum, forbidden by an upper bound of 0.0
     else:
         bounds = [(None, None)] * k
         j = int(rng.integers(k))
